@@ -4,7 +4,19 @@
   Property theorems over `LtVerif.Model.Lifecycle` (helper lemmas: `LtVerif.Proofs.Lifecycle`).
   The model is tied to the C code by the correspondence streams of tools/ltv/props/c13.py:
   `ct1`/`ct2`/`lc` call h1_check_timeout(), h2_check_timeout() and the load-check step directly;
-  `sc` runs the real server_main_loop() in virtual time against scripted clients.
+  `h2d`/`h2h` call h2_recv_data() and http_request_parse_header() (HTTP/2 limits);
+  `sc` runs the real server_main_loop() in virtual time against scripted clients;
+  `mcl` compares `effMaxConns` with the limit measured on the real server.
+
+  Clause map.  Timeouts: `c13_sweep_exact`, `c13_idle_fin_sent`, `c13_idle_closed`,
+  `c13_idle_closed_sys` (HTTP/1.x, over all scripts), `c13_h2_sweep_exact_partial` (HTTP/2: the sweep
+  function only).  Limits: `c13_limits_refuse`, `c13_limits_buffer_bounded`, `c13_h2_limits_refuse`.
+  Admission: `c13_conn_cap`, `c13_accept_bounded`, `c13_overload_recovers`, `c13_no_idle_wait`,
+  `c13_overload_never_permanent` (side condition necessary, witness below), `c13_configured_limit`.
+  Graceful stop: `c13_graceful_no_accept`, `c13_graceful_inflight`, `c13_graceful_exit`,
+  `c13_graceful_exits`.  No theorem (correspondence only): that in-flight response BYTES arrive
+  complete (the model carries none), the HTTP/2 connection lifecycle after the sweep's verdict, the
+  event handlers.
 
   Reading guide.  `Conn` is one HTTP/1.x connection at rest between two events, `Conn.Rest` the
   three shapes in which the main loop leaves it (waiting for request bytes with FDEVENT_IN wanted,
